@@ -188,6 +188,34 @@ CHECKS = {
         design_ref="DESIGN.md §5 C02", category="proof",
         note="partial by nature: memory safety of C++ is not a theorem; uninitialised reads (MSan), allocation failure and "
              "real termination are outside the model; the sanitizer exploration is supporting evidence, not proof."),
+
+    "C06": dict(
+        technique="Lean 4 proof of the data-independent core (Punycode variable-length integers round trip, digits, int32 "
+                  "guards, ASCII carve-out) + comparison of map/NFC/Punycode/validity/vectors with independent oracles and a "
+                  "pinned digest of the embedded tables",
+        text="Lean 4 theorems: Punycode's generalized variable-length integers round-trip for every delta/bias/position, digit "
+             "coding is a bijection on 0..35, the decoder's and encoder's int32 guards only reject and keep every value within "
+             "int32, the URL Standard's ASCII carve-out is lower-casing; the Punycode model is run against the C++. Data: "
+             "per-plane digests of map(cp) for all 1,112,064 scalar values are pinned; map(cp) is compared with the UTS46 15.1 "
+             "table for every code point it classifies, normalize(map(s)) with Python 3.13 NFC (15.1), Punycode with CPython's "
+             "RFC 3492 codec, label validity with idna 3.7, plus all WPT IdnaTestV2/toascii vectors through the host parser.",
+        design_ref="DESIGN.md §5 C06", category="proof",
+        note="oracle-limited and partial: no Unicode 17 data exists in this sandbox, so 'equals IdnaMappingTable 17.0' is NOT "
+             "verified (15.1 oracles + pinned digest + WPT vectors instead); the IDNA pipeline itself is compared, not "
+             "modelled; three known findings (ZWNJ rule relaxed, Bidi rule per label, Bidi/Mark tables predate Unicode 14)."),
+    "C16": dict(
+        technique="Lean 4 proof of the table-independent laws (Punycode output lower-case, ASCII branch idempotent and "
+                  "case-insensitive); equivalent-spelling laws decided on the implementation with spellings derived from "
+                  "Unicode data",
+        text="Lean 4: Punycode digits are lower-case letters/digits (all 36), the ASCII branch of domain-to-ASCII is "
+             "idempotent, lower-case and case-insensitive for every byte string. On the implementation: for generated "
+             "multi-script domains the NFD/NFC/case-flipped/ignorable-inserted/fullwidth spellings must convert identically "
+             "(or all fail), results are lower-case ASCII and fixed points, ToASCII(ToUnicode(ToASCII x)) = ToASCII x, also "
+             "through the host parser of both URL types.",
+        design_ref="DESIGN.md §5 C16", category="proof",
+        note="the equivalence laws depend on the Unicode tables and are decided per generated input (differential / "
+             "metamorphic), not proved; one known finding inherent to UTS46 (U+0345 is mapped to a starter before "
+             "normalization)."),
 }
 
 NOT_YET = "check not built yet (work in progress in this session; see DESIGN.md §8 build order)"
